@@ -632,6 +632,23 @@ func dropTask(p *Plan, t int) *Plan {
 		fl = []map[string]interface{}{}
 	}
 	q.Faults = fl
+	if set, ok := q.Sched["stall_set"].([]interface{}); ok {
+		var ns []interface{}
+		for _, e := range set {
+			switch v := numOf(e); {
+			case v == t:
+			case v > t:
+				ns = append(ns, v-1)
+			default:
+				ns = append(ns, v)
+			}
+		}
+		if ns == nil {
+			delete(q.Sched, "stall_set")
+		} else {
+			q.Sched["stall_set"] = ns
+		}
+	}
 	for _, k := range []string{"stall", "low_prio"} {
 		v := numOf(q.Sched[k])
 		switch {
